@@ -196,7 +196,7 @@ func (s *sink) sendRS() error {
 type logCore struct {
 	mu     sync.Mutex
 	sent   []time.Time
-	failed int
+	failed []time.Time
 }
 
 func (c *logCore) Enabled(zapcore.Level) bool        { return true }
@@ -211,22 +211,22 @@ func (c *logCore) Write(e zapcore.Entry, _ []zapcore.Field) error {
 	case "Sent Router Advertisement":
 		c.sent = append(c.sent, e.Time)
 	case "Failed to send RA":
-		c.failed++
+		c.failed = append(c.failed, e.Time)
 	}
 	return nil
 }
 func (c *logCore) Sync() error { return nil }
-func (c *logCore) take() ([]time.Time, int) {
+func (c *logCore) take() ([]time.Time, []time.Time) {
 	c.mu.Lock()
 	defer c.mu.Unlock()
 	s, f := c.sent, c.failed
-	c.sent, c.failed = nil, 0
+	c.sent, c.failed = nil, nil
 	return s, f
 }
 func (c *logCore) count() int {
 	c.mu.Lock()
 	defer c.mu.Unlock()
-	return len(c.sent) + c.failed
+	return len(c.sent) + len(c.failed)
 }
 
 // ---------------------------------------------------------------------------------------------------------------
@@ -249,6 +249,8 @@ type SSystem struct {
 	Advs      []int // seconds
 	PIdx      []int // prefix indices used by addp / rmp
 	MaxStarts int
+	Hop       bool // judge the hop limit here (a property of every advertisement: judged in a few systems only, so that it does not colour every other finding)
+	ImmEarly  bool // SendImmediateRA is also called on a server that was never started
 }
 
 func (s *SSystem) Name() string { return s.name }
@@ -302,7 +304,7 @@ func prefixRec(p, plen int, l, a bool, valid, pref uint32) map[string]any {
 
 func (s *SSystem) Config() map[string]any {
 	impl := s.name
-	if i := strings.IndexAny(impl, "-#"); i > 0 {
+	if i := strings.IndexAny(impl, "#"); i > 0 {
 		impl = impl[:i]
 	}
 	cfgp := []any{}
@@ -313,7 +315,7 @@ func (s *SSystem) Config() map[string]any {
 	for i := 1; i <= s.DNS; i++ {
 		dns = append(dns, i)
 	}
-	return map[string]any{"impl": impl, "kind": s.kind(), "min_ms": s.effMin() * 1000, "max_ms": s.effMax() * 1000, "tol_ms": 1,
+	return map[string]any{"impl": impl, "kind": s.kind(), "min_ms": s.effMin() * 1000, "max_ms": s.effMax() * 1000, "tol_ms": 1, "hop": s.Hop, "immearly": s.ImmEarly,
 		"managed": s.Managed, "other": s.Other, "mtu": s.MTU, "life": s.Life, "cfgp": cfgp, "dns": dns, "ndom": s.Dom, "nsubs": 0,
 		// to rebuild the system from a replay file
 		"mins": s.MinS, "maxs": s.MaxS, "cfgpi": intsAny(s.CfgP), "ops": strsAny(s.ops()), "advs": intsAny(s.Advs), "pidx": intsAny(s.PIdx), "maxstarts": s.maxStarts()}
@@ -355,7 +357,7 @@ func fromCfg(name string, c map[string]any) *SSystem {
 		return nil
 	}
 	s := &SSystem{name: name, Kind: fmt.Sprint(c["kind"]), MinS: toInt(c["mins"]), MaxS: toInt(c["maxs"]), Managed: c["managed"] == true, Other: c["other"] == true,
-		MTU: toInt(c["mtu"]), Life: toInt(c["life"]), Dom: toInt(c["ndom"]), MaxStarts: toInt(c["maxstarts"])}
+		MTU: toInt(c["mtu"]), Life: toInt(c["life"]), Dom: toInt(c["ndom"]), MaxStarts: toInt(c["maxstarts"]), Hop: c["hop"] == true, ImmEarly: c["immearly"] == true}
 	if l, ok := c["dns"].([]any); ok {
 		s.DNS = len(l)
 	}
@@ -527,7 +529,12 @@ func (in *inst) prefixesNow() []string {
 func (in *inst) running() bool { return core.Field(in.srv, "running").Int() == 1 }
 
 // collect gathers what the step put on the link and pairs it with the daemon's own send log (time stamps).
-func (in *inst) collect(op string) ([]any, int) {
+func (in *inst) collect(op string, ts time.Time) ([]any, int) {
+	ras, f := in.collect2(op, ts)
+	return ras, len(f)
+}
+
+func (in *inst) collect2(op string, ts time.Time) ([]any, []time.Time) {
 	in.settle()
 	sent, failed := in.lc.take()
 	pk := in.snk.drain()
@@ -543,9 +550,12 @@ func (in *inst) collect(op string) ([]any, int) {
 	}
 	ras := []any{}
 	for i, p := range pk {
-		t := in.nowMs()
-		if i < len(sent) && in.s.kind() == "hook" {
-			t = int(sent[i].Sub(in.t0) / time.Millisecond)
+		t := 0 // instants are relative to the start of the step
+		if in.s.kind() == "hook" {
+			t = int(time.Since(ts) / time.Millisecond)
+			if i < len(sent) {
+				t = int(sent[i].Sub(ts) / time.Millisecond)
+			}
 		}
 		r := parseRA(p.b, in.mac)
 		r["t"] = t
@@ -566,6 +576,7 @@ func (in *inst) Apply(ev core.Event) map[string]any {
 	in.hist = append(in.hist, op)
 	p, v, dt := toInt(ev["p"]), toInt(ev["v"]), toInt(ev["dt"])
 	before := in.srv.GetStats()["ras_sent"]
+	ts := time.Now()
 	res := map[string]any{"skip": false, "err": ""}
 	wire := in.s.kind() == "wire"
 	awaitLog := func(ms int) { // wire systems: real goroutines, real time - wait for a datagram on the link, then for stragglers
@@ -614,10 +625,16 @@ func (in *inst) Apply(ev core.Event) map[string]any {
 				infra("%s: sending a router solicitation: %v", in.s.name, err)
 			}
 			awaitLog(1500)
+		} else if !in.started {
+			res["skip"] = true // no receive loop before Start / after Stop (`for running == 1`): a solicitation reaches nobody
 		} else {
 			in.srv.VerifRS(&net.IPAddr{IP: net.ParseIP("fe80::1"), Zone: ifA})
 		}
 	case "imm":
+		if in.starts == 0 && !in.s.ImmEarly {
+			res["skip"] = true
+			break
+		}
 		in.srv.SendImmediateRA()
 	case "addp":
 		have := false
@@ -646,12 +663,15 @@ func (in *inst) Apply(ev core.Event) map[string]any {
 	if _, ok := res["rec"]; !ok {
 		res["rec"] = prefixRec(0, 0, false, false, 0, 0)
 	}
-	ras, failed := in.collect(op)
+	ras, failed := in.collect(op, ts)
 	res["ras"] = ras
 	res["nra"] = len(ras)
 	res["fails"] = failed
 	res["dsent"] = int(in.srv.GetStats()["ras_sent"] - before)
-	res["t1"] = in.nowMs()
+	res["dur"] = 0
+	if !wire {
+		res["dur"] = int(time.Since(ts) / time.Millisecond)
+	}
 	return res
 }
 
@@ -687,9 +707,12 @@ func (in *inst) Fingerprint() string {
 		synctest.Wait()
 		sent, failed := in.lc.take()
 		in.snk.drain()
-		fp += fmt.Sprintf(" ahead(f=%d):", failed)
+		fp += " ahead:"
 		for _, t := range sent {
 			fp += fmt.Sprintf(" %d", t.Sub(base)/time.Millisecond)
+		}
+		for _, t := range failed {
+			fp += fmt.Sprintf(" F%d", t.Sub(base)/time.Millisecond)
 		}
 	}
 	return fp
